@@ -426,7 +426,9 @@ def thorough_extras(prop, sel, repo, known):
                 status.append((r["unit"], r["status"]))
                 for o2 in r["obligations"]:
                     if o2["status"] == "failed" and (not o2["props"] or prop in o2["props"]):
-                        red.append(o2["label"])
+                        # a bounded test that is a recorded finding fails on EVERY tree: it says nothing about the seeded change
+                        if not any(k["obligation"] == o2["label"] and k["property"] == prop for k in known):
+                            red.append(o2["label"])
             caught = len(red) > 0
             undec = sorted(n for (n, st) in status if st == "undecided")
             rec = {"seed": os.path.basename(sd), "summary": m.get("summary", "")[:200], "expected": m.get("expected"), "caught": caught, "red_obligations": sorted(set(red))[:6],
